@@ -34,6 +34,9 @@ type wscript struct {
 	Callers int     `json:"callers"`
 	Steps   []wstep `json:"steps"`
 	Src     string  `json:"src"`
+	Side    string  `json:"side"` // optional: fixed side / mode / error kind instead of the rotation
+	Mode    string  `json:"mode"`
+	ErrBy   string  `json:"errby"`
 }
 
 type result struct {
@@ -168,6 +171,17 @@ func runScript(t *testing.T, s wscript, side, mode, errBy string, sum *summary, 
 				}
 			}
 		}
+		// units of the resource that a blocked caller could take right now
+		availNow := func() int {
+			st := R.VerifKCPState()
+			if mode == "write" {
+				if a := int(st.SndWnd) - len(st.SndBuf) - len(st.SndQueue); a > 0 {
+					return a
+				}
+				return 0
+			}
+			return len(st.RcvQueue)
+		}
 		started := map[string]bool{}
 		for _, st := range s.Steps {
 			sum.Steps++
@@ -228,9 +242,12 @@ func runScript(t *testing.T, s wscript, side, mode, errBy string, sum *summary, 
 				poke()
 				serr = true
 			case "tick":
-				synctest.Wait()
-				tr.Add(map[string]any{"ev": "tick"})
-				time.Sleep(unit)
+				// half a unit into the tick everything that reacts to the events of this instant has reacted (the periodic update()
+				// tells blocked writers about an opened window within one flush interval): whoever is still blocked now is judged
+				time.Sleep(unit / 2)
+				harvest()
+				tr.Add(map[string]any{"ev": "tick", "now": nowU(), "blocked": inflight, "avail": availNow(), "dl": dl, "closed": closed, "serr": serr, "overlap": overlap})
+				time.Sleep(unit - unit/2)
 			}
 			harvest()
 		}
@@ -240,14 +257,7 @@ func runScript(t *testing.T, s wscript, side, mode, errBy string, sum *summary, 
 			time.Sleep(unit / 2)
 		}
 		harvest()
-		avail := len(R.VerifKCPState().RcvQueue)
-		if mode == "write" {
-			st := R.VerifKCPState()
-			avail = int(st.SndWnd) - len(st.SndBuf) - len(st.SndQueue)
-			if avail < 0 {
-				avail = 0
-			}
-		}
+		avail := availNow()
 		for x := range started {
 			_ = x
 		}
@@ -310,6 +320,18 @@ func TestWaitScripts(t *testing.T) {
 		errBy := "fail"
 		if side == "server" && (i/4)%2 == 1 {
 			errBy = "lclose"
+		}
+		if s.Side != "" {
+			side = s.Side
+		}
+		if s.Mode != "" {
+			mode = s.Mode
+		}
+		if s.ErrBy != "" {
+			errBy = s.ErrBy
+		}
+		if side != "server" {
+			errBy = "fail"
 		}
 		runScript(t, s, side, mode, errBy, sum, tf, fmt.Sprintf("%s#%d", s.Src, i))
 	}
